@@ -1,7 +1,7 @@
 """C20 — cooling models stay inside their physical envelope: only the clauses decidable by calculus on the
 closed forms extracted from the code (boundary attainment; half-space envelope and monotonicity)."""
 from .. import facts, run
-from ..rules import models
+from ..rules import models, pure
 
 
 def main(tier):
@@ -15,6 +15,9 @@ def main(tier):
     rep.assumptions.append("bounds and monotonicity of the 100-term plate-model series, the mass-conserving slab construction and the slab plate "
                            "model are NOT decided (real analysis of transcendental expressions of run-time quantities); only the listed clauses "
                            "are claimed")
+    # the answer does not depend on what was queried before (no cache that outlives a query: a necessary condition for a
+    # statement about 'all worlds and all points', which includes a second world in the same process)
+    pure.run(P, rep, pure.query_roots(P))
     rep.explanation = ("The closed forms of the half-space, plate and constant-age plate models are extracted from the code (loops as one "
                        "symbolic iteration) and verified against the published formulas; on the extracted forms computer algebra decides "
                        "boundary attainment (substitution / limit) and, for the half-space model, the convex-combination envelope and the "
